@@ -144,6 +144,15 @@ MISMATCH = [  # (how, expected bits or None for rejection)
     ("pack('bytes:2', b'a')", lambda b: b.pack('bytes:2', b'a'), None),
     ("pack('bytes:1', b'a')", lambda b: b.pack('bytes:1', b'a'), '01100001'),
     ("Bits(hex='abc', length=8)", lambda b: b.Bits(hex='abc', length=8), None),
+    ("Bits(hex8='abc')", lambda b: b.Bits(hex8='abc'), None),
+    ("Bits(hex12='abc')", lambda b: b.Bits(hex12='abc'), '101010111100'),
+    ("BitArray(bin2='101')", lambda b: b.BitArray(bin2='101'), None),
+    ("BitStream(bin4='1')", lambda b: b.BitStream(bin4='1'), None),
+    ("Bits(bytes1=b'ab')", lambda b: b.Bits(bytes1=b'ab'), None),
+    ("Bits(bytes2=b'ab')", lambda b: b.Bits(bytes2=b'ab'), '0110000101100010'),
+    ("ConstBitStream(oct6='777')", lambda b: b.ConstBitStream(oct6='777'), None),
+    ("Bits(bits3='0b11')", lambda b: b.Bits(bits3='0b11'), None),
+    ("Bits(bits2='0b11')", lambda b: b.Bits(bits2='0b11'), '11'),
     ("Bits(bin='01', length=3)", lambda b: b.Bits(bin='01', length=3), None),
     ("Bits(bool=True, length=2)", lambda b: b.Bits(bool=True, length=2), None),
     ("Bits(bool=2)", lambda b: b.Bits(bool=2), None),
